@@ -113,6 +113,9 @@ type Interp struct {
 	filterNode  map[int]*Value
 	filterSeq   int
 	peekSeq     int
+	inCond      bool
+	chanSeq     int
+	mainBlocked string // set by the scheduler when the harness body can never continue
 	appended    map[*Value]bool // Data buffers of packets that have been appended to a parent
 	staleChild  string          // set when such a buffer is written afterwards
 	decSeq      int
@@ -927,6 +930,15 @@ func (fr *frame) visit(instr ssa.Instruction) bool {
 		*cell = in.zero(x.Type().(*types.Pointer).Elem())
 		fr.env[x] = cell
 	case *ssa.MakeSlice:
+		if l, ok := fr.get(x.Len).(Int); ok && l == 0 {
+			if _, symCap := fr.get(x.Cap).(*Term); symCap {
+				if eb, ok := x.Type().Underlying().(*types.Slice).Elem().Underlying().(*types.Basic); ok && eb.Kind() == types.Uint8 {
+					// make([]byte, 0, n) with a symbolic capacity: an empty byte string to append to
+					fr.env[x] = SymBytes{}
+					break
+				}
+			}
+		}
 		n := in.concreteInt(fr, fr.get(x.Len), "make len")
 		c := in.concreteInt(fr, fr.get(x.Cap), "make cap")
 		if n < 0 || c < n {
